@@ -1,3 +1,6 @@
 claim("C12", "field-coverage analysis of equality methods (type-checked AST, alias-following)",
       "Decides a necessary structural condition: every semantic field of every css_ast node type is read through both operands by the Equal methods used for rule merging and duplicate removal, pointer fields by content, and hashed fields are a subset of compared fields. Does not decide the cascade itself.",
       "", "DESIGN.md §3 C12")
+claim("C09", "write-set (type-path) analysis over SSA + VTA call graph; equality field coverage; who-may-call layering; CFG must-pass-through",
+      "Decides the cache contract's structural conditions on every path: AST cache key covers every parser option and guards every hit; no post-parse store into uncloned AST memory (clone steps checked to exist); build paths observe the FS only through internal/fs; FS observations are recorded for the watcher on every path and every watch state has a change predicate; the global runtime cache depends only on its key. Necessary conditions of rebuild==clean build, not the behaviour.",
+      "", "DESIGN.md §3 C09")
